@@ -9,7 +9,9 @@ def fill(s, begin, end, text):
     return s[:i] + '\n' + text.strip() + '\n' + s[j:]
 seed = subprocess.run(['python3', '/verif/tools/seed_table.py'], capture_output=True, text=True).stdout
 fam = subprocess.run(['python3', '/verif/tools/families_table.py'], capture_output=True, text=True).stdout
+neu = subprocess.run(['python3', '/verif/tools/neutral_table.py'], capture_output=True, text=True).stdout
 s = fill(s, '<!-- SEED-TABLE-BEGIN -->', '<!-- SEED-TABLE-END -->', seed)
 s = fill(s, '<!-- FAMILIES-TABLE-BEGIN -->', '<!-- FAMILIES-TABLE-END -->', fam)
+s = fill(s, '<!-- NEUTRAL-TABLE-BEGIN -->', '<!-- NEUTRAL-TABLE-END -->', neu)
 open(p, 'w').write(s)
 print('tables filled')
